@@ -42,7 +42,7 @@ warnings.simplefilter("ignore")
 
 ID = "C02"
 DESIGN_REF = "DESIGN.md section 5, C02; design/C02.md; design/REFTOOLS.md"
-LEAN_TARGETS = ["PV.C02.Thm", "PV.C02.RThm", "PV.C02.RProgThm"]
+LEAN_TARGETS = ["PV.C02.Thm", "PV.C02.RThm", "PV.C02.RProgThm", "PV.C02.FStrLex", "PV.C02.FStrField", "PV.C02.FStrThm"]
 DRIVER = "drv_c02"
 HARNESS = {"bin": "pvh_c01", "features": "all-ranges"}
 THEOREMS = [
@@ -67,6 +67,18 @@ THEOREMS = [
     "PV.C02.namedexpr_witness",
     "PV.C02.lambda_empty_arguments_witness",
     "PV.C02.fstring_piece_in_concatenation_witness",
+    # f-string pieces: what is true (tied tokens), what is false (Tiled alone), and the tiling of a replacement field
+    "PV.C02.fstring_rangesOk_samples",
+    "PV.C02.parseR_rangesOk_fails",
+    "PV.C02.fstring_crlf_folded_witness",
+    "PV.C02.lexSpansGo_chain",
+    "PV.C02.lex_lockstep",
+    "PV.C02.lexSpans_tiles",
+    "PV.C02.tiledTab_of_aligned",
+    "PV.C02.scanField_cut",
+    "PV.C02.fieldTab_within_field",
+    "PV.C02.aligned_of_tied",
+    "PV.C02.field_value_res",
     # about the model of range computation for whole programs (ranged twin of the reference program parser PV.Prog)
     "PV.C02.parseRProgramFuel_erase",
     "PV.C02.parseRProgram_erase",
@@ -98,7 +110,9 @@ TRUSTED = [
     "hard-codes `location + TextSize::of(\"lambda\")`: equal because the lexer's keyword token is exactly its six bytes "
     "(sampled by the streams)",
     "f-string replacement fields in the theorems: the parser model computes their ranges and the streams compare them, the "
-    "structural theorems exclude trees with f-string pieces",
+    "structural theorems exclude trees with f-string pieces; the field lemmas (fieldTab_within_field, field_value_res) "
+    "take the tie FTied (the value of an f-string token is the source text of its span) as a hypothesis: it is what "
+    "the real lexer delivers except after a CR LF inside the literal (listed finding), sampled by the streams",
     "CPython 3.11.7 lineno/col_offset/end_* converted to byte offsets (tools/pyref.py) as the reference extent of "
     "statements, expressions, patterns, parameters, keywords, aliases and handlers",
     "tools/props/c02.py (oracle: structural rules, extent rules for the kinds CPython does not position), "
@@ -111,7 +125,23 @@ PARTIAL = [
     "proved (unbounded, for the MODEL): for the whole expression fragment except f-string pieces (`plain`): every tree "
     "parseR returns for tiled token spans satisfies all five structural clauses of the property "
     "(parseR_rangesOk_partial, parseRExpression_rangesOk_partial); the statement for EVERY tree (parseR_rangesOk_full) "
-    "is stated, not proved: f-string pieces",
+    "is REFUTED as stated (parseR_rangesOk_fails): `Tiled` constrains token spans only, the ranges inside a replacement "
+    "field come from the token VALUE; the statement that can hold needs the tie FTied (decidable: the value of every "
+    "f-string token is the source text of its span)",
+    "f-string pieces, decided by the kernel (fstring_rangesOk_samples): with tied tokens rangesOk HOLDS of the model's "
+    "f-string trees — nested format spec, conversion with multi-byte characters, self-documenting field, and an "
+    "f-string inside an implicit concatenation (the listed finding fstring-piece-range-in-concatenation is an extent "
+    "deviation: pieces carry the literal's or the whole concatenation's range, enclosure holds, sibling order is exempt "
+    "for JoinedStr.values); with a CR LF folded in the token value the tie and rangesOk both fail "
+    "(fstring_crlf_folded_witness)",
+    "proved (unbounded): the reusable half of the f-string proof — lexSpans_tiles / lexSpansGo_chain / lex_lockstep "
+    "(analogue of C05 for the field token loop: spans are byte images of increasing character intervals of the text, "
+    "ordered, as many as the C11 lexer's tokens), scanField_cut (prefix / offset lemma: the expression text has the byte "
+    "offsets of the source at every character position, a one-byte character follows, the rest is a suffix), "
+    "aligned_of_tied, tiledTab_of_aligned, fieldTab_within_field (the span table of the recursive parse is a TiledTab "
+    "of the source inside the window from the opening brace to the end of what the scanner consumed) and "
+    "field_value_res (a plain field expression parsed over fieldTab passes all structural clauses inside that window: "
+    "the induction step at fstrRField)",
     "proved (unbounded, for the MODEL of whole programs): for every mode, every tiled spanned token list and every "
     "accepted program without f-string pieces, the WHOLE tree — Mod*, all 28 statement kinds, 8 pattern kinds, "
     "handlers, match cases, aliases, with-items, type parameters, Arguments / ArgWithDefault / Arg, keywords, "
@@ -135,8 +165,12 @@ PARTIAL = [
     "pieces in a concatenation, parenthesised parameter default (lambda and def), compound end without the trailing "
     "`;`, match subject tuple; regression facts of repaired findings: ArgWithDefault includes its default, with-items "
     "of a parenthesised list, empty Arguments of a lambda",
-    "not proved: trees containing f-string pieces (JoinedStr / FormattedValue: the span table of a replacement field's "
-    "inner tokens is not shown to tile the source); the listed finding fstring-field-range-after-crlf is reproduced "
+    "not proved: the structural theorem for whole trees containing f-string pieces (parseR_rangesOk_fstr: Tiled + FTied "
+    "+ parse -> rangesOk). What is missing is bookkeeping, not mathematics: the hypothesis FTied speaks about the token "
+    "at a cursor, so it has to be threaded through the 48 step lemmas of SoundSteps (rest is a suffix of the input: "
+    "available from parseR_erase + PV.Prog.c11Suf), `plain` replaced by a predicate that admits JoinedStr / "
+    "FormattedValue whose field values are plain (or recursively fine), and the pieces of fstrRBody / fstrRField / "
+    "fstrRSpec assembled (every piece ranged `lit`, FormattedValue children by field_value_res); the listed finding fstring-field-range-after-crlf is reproduced "
     "by the program model per input (real token values) but lies outside the lexer model's domain",
     "the bridges tiled_of_lexer / tiledP_of_lexer relate token SPANS of the lexer model to `Tiled`; token values of "
     "PV.Lexer.Tok and PV.Expr.Tok are related only by correspondence streams",
@@ -165,7 +199,10 @@ LEVEL_TEXT = ("Machine-checked Lean 4, for every input and fuel: (1) erasing the
               "in all three modes: PROG's corpus, directed parameter-list / with-item / rare-production shapes, generated "
               "programs with CR / CRLF / tabs / comments / BOM / continuation lines, stdlib files); the real trees are "
               "judged by an independent oracle (structure, CPython 3.11 positions, extent rules).")
-LEVEL_NOTE = ("Partial: f-string pieces are excluded from the structural theorems; exact extents of program-level nodes "
+LEVEL_NOTE = ("Partial: f-string pieces are excluded from the whole-tree structural theorems (the statement with `Tiled` alone "
+              "is refuted; with tied tokens rangesOk is kernel-evaluated true on f-string samples, and the tiling of a "
+              "replacement field's span table and the soundness of the recursive field parse are proved — "
+              "fieldTab_within_field, field_value_res — but not yet threaded through the induction); exact extents of program-level nodes "
               "other than small statements are proved as windows / token-aligned ends, not as equations with the token "
               "span (compared per input). Trusted: fidelity of the hand-written models as sampled by the correspondence "
               "streams.")
